@@ -16,8 +16,8 @@ noncomputable def PR (na nt : List Str) (s₀ : St) (kk : Nat) (e₂ a₁ a₂ :
 def XR (s₀ : St) : SParams := ⟨s₀.stack, [], false, s₀.rowIds⟩
 
 theorem PR_ok (na nt : List Str) (s₀ : St) (kk : Nat) (e₂ a₁ a₂ : St) : (PR na nt s₀ kk e₂ a₁ a₂).Ok :=
-  ⟨rhoOf_injective (shiftFrom_injective _ _), shiftFrom_injective _ _, shiftFrom_injective _ _, fun _ => rfl,
-    fun x hx => rhoOf_plain _ hx⟩
+  ⟨rhoOf_injective (shiftFrom_injective _ _), shiftFrom_injective _ _, shiftFrom_injective _ _, fun _ _ => rfl,
+    fun x hx => rhoOf_plain _ hx, fun h => Bool.noConfusion h⟩
 
 /-- a renaming that fixes the identifiers below `B` (and the given ones) fixes every node whose
 identifiers are below `B` or given -/
@@ -190,6 +190,7 @@ theorem simR_establish {n : NodeM} {kk : Nat} {e₂ : St} (hid : r₁.rowId.isEm
     · intro j _; rfl
     · intro i _; rfl
     · intro j _; rfl
+    · intro h; exact Bool.noConfusion h
   · -- scope
     constructor
     · show (twA s₀ e₂ r₁).stack = [s₀.groups.size].map (shiftFrom _ _) ++ s₀.stack
